@@ -27,6 +27,9 @@ def run(ctx, rep):
     rep.run(RP.rule_free_function_binding_is_name_independent, ctx, rep, "B12")
     rep.run(RP.rule_class_block_by_evaluation, ctx, rep, "B13", part="forwarding")
     rep.run(RI.rule_explicit_template_arguments_by_evaluation, ctx, rep, "B14")
+    # B15: argument / return types reach the bindings instantiated - templated types with their parameter types included (= C02 S14)
+    rep.run(RI.rule_instantiate_type_by_evaluation, ctx, rep, "B15", part="substitution")
+    rep.run(RI.rule_declared_base_kept, ctx, rep, "B16")
     rep.run(RP.rule_one_argument_list, ctx, rep, "B1", min_emitters=4)
     rep.run(RP.rule_default_on_own_parameter, ctx, rep, "B2")
     rep.run(RP.rule_default_text_verbatim, ctx, rep, "B2")
